@@ -94,6 +94,12 @@ def monitor_timing(case):
                     s_started[w] += 1
                 elif kind[w] == 'flat':
                     f_started[w] += 1
+        for e in evs:
+            if e['e'] == 'chk':
+                for w, (a, b) in enumerate(zip(e.get('sc', []), e.get('vc', []))):
+                    if a < 0 or b < 0:
+                        return ('wait counters of wavefront %d are negative (lgkm %d, vm %d) in cycle %d: a later s_waitcnt / s_endpgm '
+                                'would not wait for outstanding memory operations' % (w, a, b, tk['t']))
         sd = [e for e in evs if e['e'] == 'sdone']
         for e in sd:
             w = e.get('w', 0)
@@ -234,7 +240,7 @@ def nontrivial(case):
         return False
     bars = sum(1 for e in t['evs'] if e['e'] == 'sdone' and e['k'] == 'bar')
     waited = any(e['e'] == 'chk' and any(x == 2 for x in e.get('st', [])) and len(e.get('int', [])) > 0 for e in t['evs'])
-    return (bars >= 2 and case['nwf'] >= 2) or (waited and any(s['op'] in ('fload', 'floadu', 'sload') for s in case['prog']))
+    return (bars >= 2 and case['nwf'] >= 2) or (waited and any(s['op'] in ('fload', 'floadu', 'sload', 'gload', 'scload', 'floadg', 'gloadg', 'sload2') for s in case['prog']))
 
 
 def main(argv):
